@@ -19,7 +19,7 @@ func (w *World) intBound(v ssa.Value, at ssa.Instruction) (lo, hi int64, ok bool
 }
 
 func (w *World) intBoundD(v ssa.Value, at ssa.Instruction, d int) (lo, hi int64, ok bool) {
-	if d > 8 {
+	if d > 12 {
 		return 0, 0, false
 	}
 	v = stripConvKeepNarrow(v)
@@ -45,6 +45,23 @@ func (w *World) intBoundD(v ssa.Value, at ssa.Instruction, d int) (lo, hi int64,
 		}
 	}
 	switch x := v.(type) {
+	case *ssa.Parameter:
+		if iv, okE := w.paramEnv[x]; okE {
+			lo, hi, known = max64(lo, iv[0]), min64(hi, iv[1]), true
+		}
+	case *ssa.UnOp:
+		if x.Op == token.MUL {
+			switch a := x.X.(type) {
+			case *ssa.Global:
+				if l, h, k := w.globalInt(a); k {
+					lo, hi, known = max64(lo, l), min64(hi, h), true
+				}
+			case *ssa.FieldAddr:
+				if l, h, k := w.fieldIntInvariant(addrField(a), d); k {
+					lo, hi, known = max64(lo, l), min64(hi, h), true
+				}
+			}
+		}
 	case *ssa.Call:
 		if b, isB := x.Call.Value.(*ssa.Builtin); isB && (b.Name() == "len" || b.Name() == "cap") {
 			l, h, k := w.lenBoundD(x.Call.Args[0], at, d+1)
@@ -188,12 +205,41 @@ func stripConvKeepNarrow(v ssa.Value) ssa.Value {
 // factBound derives bounds for the expression string from facts "expr op K" / "expr op other".
 func (w *World) factBound(expr string, at ssa.Instruction, d int) (lo, hi int64, ok bool) {
 	lo, hi = -inf, inf
-	for _, f := range w.factsAt(at) {
+	facts := w.factsAt(at)
+	facts = append(facts, w.expandBoolHelpers(facts)...)
+	for _, f := range facts {
 		parts := splitCmp(f.Expr)
 		if parts == nil {
 			continue
 		}
 		lhs, op, rhs := parts[0], parts[1], parts[2]
+		if f.dCond != nil {
+			// fact derived from a boolean helper: operands are values of the helper's body
+			var other ssa.Value
+			if lhs == expr {
+				other = f.dCond.Y
+			} else if rhs == expr {
+				other = f.dCond.X
+				op = map[string]string{"<": ">", ">": "<", "<=": ">=", ">=": "<=", "==": "==", "!=": "!="}[op]
+			} else {
+				continue
+			}
+			if l2, h2, k2 := w.intBoundD(other, f.dAt, d+2); k2 {
+				switch op {
+				case "==":
+					lo, hi, ok = max64(lo, l2), min64(hi, h2), true
+				case "<":
+					hi, ok = min64(hi, h2-1), true
+				case "<=":
+					hi, ok = min64(hi, h2), true
+				case ">":
+					lo, ok = max64(lo, l2+1), true
+				case ">=":
+					lo, ok = max64(lo, l2), true
+				}
+			}
+			continue
+		}
 		var k int64
 		var isK bool
 		flip := false
@@ -355,7 +401,7 @@ func (w *World) lenBound(v ssa.Value, at ssa.Instruction) (lo, hi int64, ok bool
 }
 
 func (w *World) lenBoundD(v ssa.Value, at ssa.Instruction, d int) (lo, hi int64, ok bool) {
-	if d > 8 {
+	if d > 12 {
 		return 0, inf, false
 	}
 	v = stripConv(v)
@@ -395,12 +441,18 @@ func (w *World) lenBoundD(v ssa.Value, at ssa.Instruction, d int) (lo, hi int64,
 			if hk && lk {
 				return max64(0, hl-lh), max64(0, hh-ll), true
 			}
+			if l, h, k := w.factBound("len("+render(v)+")", at, d); k {
+				return max64(0, l), h, true
+			}
 			return 0, inf, false
 		}
 		if bk && lk {
-			return max64(0, bl-lh), max64(0, bh-ll), true
+			lo, hi, ok = max64(0, bl-lh), max64(0, bh-ll), true
 		}
-		return 0, inf, false
+		if l, h, k := w.factBound("len("+render(v)+")", at, d); k {
+			lo, hi, ok = max64(lo, l), min64(hi, h), true
+		}
+		return lo, hi, ok
 	case *ssa.Phi:
 		// flat buffer idiom or merge
 		return w.phiLenBound(x, at, d)
@@ -438,6 +490,26 @@ func (w *World) lenBoundD(v ssa.Value, at ssa.Instruction, d int) (lo, hi int64,
 			if g, isG := x.X.(*ssa.Global); isG {
 				if l, h, k := w.globalLen(g, d); k {
 					lo, hi, ok = l, h, true
+				}
+			}
+			if fa, isFA := x.X.(*ssa.FieldAddr); isFA {
+				if l, h, k := w.fieldLenInvariant(addrField(fa), d); k {
+					lo, hi, ok = l, h, true
+				}
+			}
+		}
+	}
+	if c, isC := v.(*ssa.Call); isC && !ok {
+		if callee := c.Call.StaticCallee(); callee != nil && strings.HasPrefix(callee.String(), "crypto/hkdf.Key") {
+			_ = callee
+		}
+	}
+	if ex, isEx := v.(*ssa.Extract); isEx && ex.Index == 0 {
+		if c, isC := ex.Tuple.(*ssa.Call); isC {
+			if callee := c.Call.StaticCallee(); callee != nil && strings.HasPrefix(callee.String(), "crypto/hkdf.Key") && len(c.Call.Args) == 5 {
+				// crypto/hkdf.Key returns exactly keyLength bytes on its error-free return
+				if l, h, k := w.intBoundD(c.Call.Args[4], c, d+1); k {
+					lo, hi, ok = max64(0, l), h, true
 				}
 			}
 		}
@@ -515,6 +587,16 @@ func (w *World) loopRunsAtLeastOnce(p *ssa.Phi, at ssa.Instruction) bool {
 		bl, _, bk := w.intBoundD(cond.Y, ifi, 1)
 		if bk && bl >= 1 && w.counterStartsAtZero(cond.X) {
 			return true
+		}
+		// the bound is the length of a parameter (immutable): what is known about it after the loop also held before it
+		if c, isC := stripConv(cond.Y).(*ssa.Call); isC {
+			if b, isB := c.Call.Value.(*ssa.Builtin); isB && b.Name() == "len" {
+				if _, isP := stripConv(c.Call.Args[0]).(*ssa.Parameter); isP {
+					if l2, _, k2 := w.intBoundD(cond.Y, at, 1); k2 && l2 >= 1 && w.counterStartsAtZero(cond.X) {
+						return true
+					}
+				}
+			}
 		}
 		return false
 	}
@@ -661,6 +743,28 @@ func loopHeaderOf(b *ssa.BasicBlock) *ssa.BasicBlock {
 // resultLenSummary: length of the idx-th result of a module function on its non-error returns,
 // as an interval, when every such return yields a value of bounded length.
 func (w *World) resultLenSummary(fn *ssa.Function, idx int, call *ssa.CallCommon, at ssa.Instruction, d int) (lo, hi int64, ok bool) {
+	// bind the callee's integer parameters to the intervals of the actual arguments
+	if w.paramEnv == nil {
+		w.paramEnv = map[*ssa.Parameter][2]int64{}
+	}
+	var bound []*ssa.Parameter
+	for i, p := range fn.Params {
+		if i < len(call.Args) {
+			if b, isB := p.Type().Underlying().(*types.Basic); isB && b.Info()&types.IsInteger != 0 {
+				if l, h, k := w.intBoundD(call.Args[i], at, d+1); k {
+					if _, exists := w.paramEnv[p]; !exists {
+						w.paramEnv[p] = [2]int64{l, h}
+						bound = append(bound, p)
+					}
+				}
+			}
+		}
+	}
+	defer func() {
+		for _, p := range bound {
+			delete(w.paramEnv, p)
+		}
+	}()
 	var jl, jh int64 = inf, -inf
 	n := 0
 	for _, r := range returns(fn) {
@@ -773,4 +877,230 @@ func countedLoop(ph *ssa.Phi) (bound ssa.Value, ok bool) {
 		return b1, true
 	}
 	return nil, false
+}
+
+
+// globalInt: a package-level integer variable that is assigned exactly once, in the package
+// initialiser, from a constant expression (e.g. `var shareSize = frBytesLen`).
+func (w *World) globalInt(g *ssa.Global) (lo, hi int64, ok bool) {
+	var vals []ssa.Value
+	bad := false
+	for _, fn := range w.moduleFuncsAll() {
+		instrs(fn, func(ins ssa.Instruction) {
+			if st, isSt := ins.(*ssa.Store); isSt && st.Addr == ssa.Value(g) {
+				if fn.Name() != "init" {
+					bad = true
+				}
+				vals = append(vals, st.Val)
+			}
+		})
+	}
+	if bad || len(vals) != 1 {
+		return 0, 0, false
+	}
+	c, isC := constOf(vals[0])
+	if !isC {
+		return 0, 0, false
+	}
+	n, isI := constInt64(c.Value)
+	return n, n, isI
+}
+
+// moduleFuncsAll includes the synthetic package initialisers.
+func (w *World) moduleFuncsAll() []*ssa.Function {
+	out := w.moduleFuncs()
+	have := map[*ssa.Function]bool{}
+	for _, f := range out {
+		have[f] = true
+	}
+	for _, pp := range []string{rootPath, hashPath, randomPath} {
+		if sp := w.SSA[pp]; sp != nil {
+			if f := sp.Func("init"); f != nil && !have[f] {
+				out = append(out, f)
+			}
+		}
+	}
+	return out
+}
+
+// fieldIntInvariant: interval that holds for an integer struct field because every store to it
+// (anywhere in the module) stores a value within that interval at the store site.
+func (w *World) fieldIntInvariant(fld *types.Var, d int) (lo, hi int64, ok bool) {
+	if fld == nil {
+		return 0, 0, false
+	}
+	d = 0 // invariants are context-free: fresh depth budget, recursion is cut by the cycle guard below
+	if w.fieldInv == nil {
+		w.fieldInv = map[*types.Var][3]int64{}
+	}
+	if iv, done := w.fieldInv[fld]; done {
+		return iv[0], iv[1], iv[2] == 1
+	}
+	w.fieldInv[fld] = [3]int64{0, 0, 0} // cycle guard
+	lo, hi = inf, -inf
+	n := 0
+	okAll := true
+	for _, fn := range w.moduleFuncs() {
+		if isTestFile(w, fn.Pos()) {
+			continue
+		}
+		instrs(fn, func(ins ssa.Instruction) {
+			st, isSt := ins.(*ssa.Store)
+			if !isSt {
+				return
+			}
+			fa, isFA := st.Addr.(*ssa.FieldAddr)
+			if !isFA || addrField(fa) != fld {
+				return
+			}
+			n++
+			l, h, k := w.intBoundD(st.Val, st, d+1)
+			if !k {
+				okAll = false
+				return
+			}
+			lo, hi = min64(lo, l), max64(hi, h)
+		})
+	}
+	if n == 0 || !okAll || lo > hi {
+		return 0, 0, false
+	}
+	w.fieldInv[fld] = [3]int64{lo, hi, 1}
+	return lo, hi, true
+}
+
+// fieldLenInvariant: bounds on the length of a slice-typed struct field while it is non-nil: every
+// non-nil store to it stores a slice whose length lies in the interval.  (Whether the field is
+// allocated at a use is a typestate question, decided by rule C09.R5.)
+func (w *World) fieldLenInvariant(fld *types.Var, d int) (lo, hi int64, ok bool) {
+	if fld == nil {
+		return 0, inf, false
+	}
+	d = 0
+	if _, isSl := fld.Type().Underlying().(*types.Slice); !isSl {
+		return 0, inf, false
+	}
+	if w.fieldLenInv == nil {
+		w.fieldLenInv = map[*types.Var][3]int64{}
+	}
+	if iv, done := w.fieldLenInv[fld]; done {
+		return iv[0], iv[1], iv[2] == 1
+	}
+	w.fieldLenInv[fld] = [3]int64{0, inf, 0}
+	lo, hi = inf, -inf
+	n := 0
+	okAll := true
+	for _, fn := range w.moduleFuncs() {
+		if isTestFile(w, fn.Pos()) {
+			continue
+		}
+		instrs(fn, func(ins ssa.Instruction) {
+			st, isSt := ins.(*ssa.Store)
+			if !isSt {
+				return
+			}
+			fa, isFA := st.Addr.(*ssa.FieldAddr)
+			if !isFA || addrField(fa) != fld {
+				return
+			}
+			if isNilConst(st.Val) {
+				w.nilStored[fld] = true
+				return
+			}
+			n++
+			l, h, k := w.lenBoundD(st.Val, st, d+1)
+			if !k {
+				okAll = false
+				return
+			}
+			lo, hi = min64(lo, l), max64(hi, h)
+		})
+	}
+	if n == 0 || !okAll || lo > hi {
+		return 0, inf, false
+	}
+	w.fieldLenInv[fld] = [3]int64{lo, hi, 1}
+	return lo, hi, true
+}
+
+
+// expandBoolHelpers: a fact `recv.helper(args) == true/false` about a module function whose body is a
+// single `return a <op> b` yields the fact `a <op> b` (negated for false) with the helper's
+// parameters replaced by the call's arguments.
+func (w *World) expandBoolHelpers(fs []Fact) []Fact {
+	var out []Fact
+	for _, f := range fs {
+		if len(f.calls) == 0 {
+			continue
+		}
+		var pol bool
+		switch {
+		case strings.HasSuffix(f.Expr, " == true"):
+			pol = true
+		case strings.HasSuffix(f.Expr, " == false"):
+			pol = false
+		default:
+			continue
+		}
+		for _, c := range f.calls {
+			if render(c)+map[bool]string{true: " == true", false: " == false"}[pol] != f.Expr {
+				continue
+			}
+			callee := c.Call.StaticCallee()
+			if callee == nil || !inModule(callee) || len(callee.Blocks) != 1 {
+				continue
+			}
+			rs := returns(callee)
+			if len(rs) != 1 || len(rs[0].Results) != 1 {
+				continue
+			}
+			bo, ok := rs[0].Results[0].(*ssa.BinOp)
+			if !ok {
+				continue
+			}
+			op := bo.Op
+			if _, cmp := negOp[op]; !cmp {
+				continue
+			}
+			if !pol {
+				op = negOp[op]
+			}
+			x, y := render(bo.X), render(bo.Y)
+			for i, p := range callee.Params {
+				if i < len(c.Call.Args) {
+					x = replaceIdent(x, p.Name(), render(c.Call.Args[i]))
+					y = replaceIdent(y, p.Name(), render(c.Call.Args[i]))
+				}
+			}
+			cp := *bo
+			cp.Op = op
+			out = append(out, Fact{Expr: x + " " + op.String() + " " + y, dCond: &cp, dAt: rs[0]})
+		}
+	}
+	return out
+}
+
+func replaceIdent(s, name, with string) string {
+	if name == with {
+		return s
+	}
+	var b strings.Builder
+	for i := 0; i < len(s); {
+		if strings.HasPrefix(s[i:], name) {
+			before := i == 0 || !isIdentChar(s[i-1])
+			after := i+len(name) >= len(s) || !isIdentChar(s[i+len(name)])
+			if before && after {
+				b.WriteString(with)
+				i += len(name)
+				continue
+			}
+		}
+		b.WriteByte(s[i])
+		i++
+	}
+	return b.String()
+}
+
+func isIdentChar(c byte) bool {
+	return c == '_' || c >= '0' && c <= '9' || c >= 'a' && c <= 'z' || c >= 'A' && c <= 'Z' || c >= 0x80
 }
